@@ -102,6 +102,10 @@ def run(ctx, tier):
     from .entries import make_interp
     from .rules_c08 import native_args_rule
     native_args_rule(ctx, make_interp(ctx.model), 'C02.R5', 'C02.R5')
+    from .rules_c08 import frame_premise
+    frame_premise(ctx)
+    from .rules_c08 import state_code_premise
+    state_code_premise(ctx)
     # "inside a region" means the closed rectangle / disc: the point predicates and the corner normalisation they rely on
     from . import rules_c17
     for rid in ('C17.R1', 'C17.R2'):
